@@ -41,6 +41,10 @@ def _spec(i):
         v, ft, name, dt = [1.5], 1.0, 'Y', {'$dt': [2020, 1, 2, 3, 0, 0, 0], 'tz': 0}
     elif i == 4:
         v, ft, name, dt = [1], True, 'X', {'$dt': [2021, 1, 2, 3, 0, 0, 0], 'tz': 0}
+    elif i == 6:
+        # does NOT conform to the high-compatibility mode (lower-case object name): builds with a warning outside the
+        # mode, is refused inside it - so a leaked mode flag shows as a failure a fresh process does not have
+        v, ft, name, dt = [1.25], 'TYPE-1', 'lower case name', {'$dt': [2020, 1, 2, 3, 0, 0, 0], 'tz': 0}
     else:
         v, ft, name, dt = [zero], 'TYPE-1', 'X', {'$dt': [2020, 1, 2, 3, 0, 0, 0], 'tz': 0}
     ops[1]['kw'].update(file_type=ft, creation_time=dt)
@@ -64,9 +68,9 @@ def _spec(i):
     return {'sul': {'max_record_length': 8192, 'set_identifier': 'SET-1'}, 'ops': ops, 'write': {}}
 
 
-NSPEC = 6
+NSPEC = 7
 MUTS = ['origin_ref', 'value', 'units', 'data', 'window', 'shape', 'dtype', 'add']
-EVENTS = [f'F{i}' for i in range(NSPEC)] + ['RW'] + [f'M:{m}' for m in MUTS] + ['HC+', 'HC-']
+EVENTS = [f'F{i}' for i in range(NSPEC)] + ['RW'] + [f'M:{m}' for m in MUTS] + ['HC+', 'HC-', 'HCX']
 
 
 def depth(tier):
@@ -154,7 +158,7 @@ def final_spec(h):
             ops, wkw = mutation_ops(e[2:])
             cur['ops'] = cur['ops'] + ops
             cur['write'] = dict(cur['write'], **wkw)
-    if cur is None or h[-1] in ('HC+', 'HC-'):
+    if cur is None or h[-1] in ('HC+', 'HC-', 'HCX'):
         return None
     return {'spec': cur, 'hc_build': bool(hc_build), 'hc_write': bool(hc)}
 
@@ -209,7 +213,8 @@ def run_history(h):
     last = None
     path = os.path.join(scratch_dir(), 'c14.dlis')
     try:
-        for e in h:
+        for idx, e in enumerate(h):
+            is_last = idx == len(h) - 1
             last = None
             if e == 'HC+':
                 cm = high_compatibility_mode()
@@ -217,12 +222,26 @@ def run_history(h):
                 cms.append(cm)
             elif e == 'HC-':
                 cms.pop().__exit__(None, None, None)
+            elif e == 'HCX':
+                # a high-compatibility block that is left by an exception (handled by the caller)
+                try:
+                    with high_compatibility_mode():
+                        raise LookupError('rejected inside the block')
+                except LookupError:
+                    pass
             else:
                 if e.startswith('F'):
                     spec_now = _spec(int(e[1:]))
                     built = S.build(spec_now)
                     if built.failed_at is not None:
-                        return ('build-raised', built.status[-1])
+                        if is_last:
+                            return ('build-raised', built.status[-1])
+                        built = None            # refused (e.g. by the mode in force): nothing to write; carry on
+                        continue
+                if built is None:
+                    if is_last:
+                        return ('nothing-built', 'the specification the event refers to was refused earlier')
+                    continue
                 elif e.startswith('M:'):
                     ops, wkw = mutation_ops(e[2:])
                     for op in ops:
@@ -252,6 +271,8 @@ def check_state(h):
         # the last event did not write: nothing to compare (failures of earlier writes are reported at their own state)
         return Outcome('no-write', viol, False)
     ref = _ref_bytes(fs)
+    if st == 'nothing-built':
+        return Outcome('nothing-built', [], False)
     if st != 'ok':
         if 'error' not in ref:
             kind = 'rewrite' if _mut_tag(h).startswith('rewrite') else 'after-other-files'
